@@ -39,11 +39,11 @@ class Fresh:
         self.k += 1
         return LogVal.atom(f"a{self.k}", 1)
 
-    def arr_u(self):
-        return sarr([[self.real("u")] for _ in range(N)])
+    def arr_u(self, n=N):
+        return sarr([[self.real("u")] for _ in range(n)])
 
-    def arr_logl(self):
-        return sarr([self.atom() for _ in range(N)])
+    def arr_logl(self, n=N):
+        return sarr([self.atom() for _ in range(n)])
 
     def arr_nested_blobs(self):
         """object-dtype blobs whose elements are themselves (mutable) arrays, as with blobs_dtype='object'"""
@@ -148,7 +148,7 @@ def scribble(obj, fr: Fresh, depth=0):
 
 OPS = ["set_u", "set_logl", "update", "commit", "get_current_key", "get_current_all", "get_history", "get_history_flat",
        "get_history_index", "get_last", "to_dict", "export_import", "export_from_dict", "results", "set_then_scribble_input", "set_readonly_view",
-       "set_nested_blobs"]
+       "set_nested_blobs", "commit_strict_refused", "commit_bigger_batch_then_read"]
 
 
 def apply_op(ctx, op, st: StateManager, model: Model, fr: Fresh, tag):
@@ -173,6 +173,44 @@ def apply_op(ctx, op, st: StateManager, model: Model, fr: Fresh, tag):
         got = st.get_current("blobs")
         expect("get_current(blobs)==state", val_eq(got, model.cur["blobs"]))
         scribble(got, fr)
+    elif op == "commit_strict_refused":
+        # a strict commit that is refused (a required quantity is missing) appends nothing: the caller catches the error and carries on
+        saved_logl = model.cur["logl"]
+        st.set_current("logl", None)
+        model.set("logl", None)
+        before = {k: len(st._history[k]) for k in HISTORY_STATE_KEYS}
+        refused = False
+        try:
+            st.commit_current_to_history(strict=True)
+        except ValueError:
+            refused = True
+        expect("strict-commit-without-logl-is-refused", z3.BoolVal(refused))
+        expect("refused-commit-appends-nothing", z3.BoolVal(all(len(st._history[k]) == before[k] for k in HISTORY_STATE_KEYS)),)
+        if saved_logl is not None:
+            st.set_current("logl", Model.cp(saved_logl))
+            model.set("logl", saved_logl)
+    elif op == "commit_bigger_batch_then_read":
+        # batches of different size (a run continued with another n_particles): per-iteration reads either refuse (ValueError) or hand out copies
+        a, b = fr.arr_u(N + 1), fr.arr_logl(N + 1)
+        d = {"u": a, "logl": b, "beta": 1.0, "logz": fr.logz()}
+        st.update_current(d)
+        for k, v in d.items():
+            model.set(k, v)
+        st.commit_current_to_history()
+        model.commit()
+        try:
+            r = st.get_history("u")
+        except ValueError:
+            r = None
+        if r is not None:
+            expect("get_history(u)==history(ragged)", z3.And(z3.BoolVal(len(r) == len(model.hist["u"])),
+                                                             *[val_eq(r[i], model.hist["u"][i]) for i in range(min(len(r), len(model.hist["u"])))]))
+            scribble(r, fr)
+        # restore a batch of the ordinary size as current state (later operations stack batches)
+        a2, b2 = fr.arr_u(), fr.arr_logl()
+        st.update_current({"u": a2, "logl": b2})
+        model.set("u", a2)
+        model.set("logl", b2)
     elif op == "set_then_scribble_input":
         a = fr.arr_u()
         keep = a.copy()
@@ -212,7 +250,12 @@ def apply_op(ctx, op, st: StateManager, model: Model, fr: Fresh, tag):
         expect("get_current()==state", z3.And(*[val_eq(r[k], model.cur[k]) for k in CURRENT_STATE_KEYS]))
         scribble(r, fr)
     elif op == "get_history":
-        r = st.get_history("u")
+        try:
+            r = st.get_history("u")
+        except ValueError:
+            if len({len(b_) for b_ in model.hist["u"]}) > 1:
+                return  # batches of different size: the non-flat view refuses (observed behaviour of the original, not part of C17)
+            raise
         expect("get_history(u)==history", z3.And(z3.BoolVal(len(r) == len(model.hist["u"])),
                                                  *[val_eq(r[i], model.hist["u"][i]) for i in range(min(len(r), len(model.hist["u"])))]))
         scribble(r, fr)
@@ -257,6 +300,8 @@ def apply_op(ctx, op, st: StateManager, model: Model, fr: Fresh, tag):
     elif op == "results":
         if len(model.hist["logl"]) == 0 or len(model.hist["beta"]) == 0:
             return
+        if len({len(b_) for b_ in model.hist["u"]}) > 1:
+            return  # batches of different size: compute_results refuses on the original (ValueError), not part of C17
         with patched(sm_mod, np=NpProxy(exact_log=True)):
             r = st.compute_results()
             ref_logw, _ = st.compute_logw_and_logz(1.0)
@@ -397,7 +442,44 @@ def make_sequences(length):
             elif op == "get_current_all":
                 scr(st.get_current())
             elif op == "get_history":
-                scr(st.get_history("u"))
+                try:
+                    scr(st.get_history("u"))
+                except ValueError:
+                    if len({len(b_) for b_ in hist["u"]}) <= 1:
+                        raise
+            elif op == "commit_strict_refused":
+                saved_logl = cur["logl"]
+                st.set_current("logl", None)
+                cur["logl"] = None
+                before = {k: len(st._history[k]) for k in HISTORY_STATE_KEYS}
+                try:
+                    st.commit_current_to_history(strict=True)
+                    return "a strict commit without logl was accepted"
+                except ValueError:
+                    pass
+                grown = [k for k in HISTORY_STATE_KEYS if len(st._history[k]) != before[k]]
+                if grown:
+                    return f"a refused strict commit still appended a batch for {grown}"
+                if saved_logl is not None:
+                    st.set_current("logl", cp(saved_logl))
+                    cur["logl"] = saved_logl
+            elif op == "commit_bigger_batch_then_read":
+                d = {"u": rng.rand(N + 1, 1), "logl": -rng.rand(N + 1), "beta": 0.5, "logz": -rng.rand()}
+                st.update_current(d)
+                for k, v in d.items():
+                    cur[k] = cp(v)
+                st.commit_current_to_history()
+                for k in CURRENT_STATE_KEYS:
+                    if k in HISTORY_STATE_KEYS and cur[k] is not None:
+                        hist[k].append(cp(cur[k]))
+                try:
+                    scr(st.get_history("u"))
+                except ValueError:
+                    pass
+                d2 = {"u": rng.rand(N, 1), "logl": -rng.rand(N)}
+                st.update_current(d2)
+                for k, v in d2.items():
+                    cur[k] = cp(v)
             elif op == "get_history_flat":
                 if hist["logl"]:
                     scr(st.get_history("logl", flat=True))
@@ -429,7 +511,7 @@ def make_sequences(length):
                     if isinstance(snapc[k], np.ndarray) and not np.array_equal(snapc[k], st2._current[k]):
                         return f"imported copy: current[{k}] changed after scribbling the exported dict"
             elif op == "results":
-                if hist["logl"] and hist["beta"]:
+                if hist["logl"] and hist["beta"] and len({len(b_) for b_ in hist["u"]}) <= 1:
                     r = st.compute_results()
                     ref = np.array(hist["u"])
                     if not np.array_equal(r["u"], ref):
